@@ -8,21 +8,9 @@ from props import _lay
 
 LEVEL = "proof"
 MODULE = "Phil.Props.C13"
-LEVEL_TEXT = ("Lean theorems about the include model over an abstract file system and an import table (IncEnv: files, python "
-              "import path -> text of the imported scope, current directory): a file already on the include stack is refused with "
-              "the cycle error (also when the chain runs through imported scopes: file_cycle_through_scope_detected), expansion "
-              "never runs out of fuel when imported scopes refer only to scopes of higher rank (expand_never_out_of_fuel, "
-              "ImportsRanked is necessary: loop_out_of_fuel), files without include statements expand to their own parse, "
-              "'include file' splices the expansion of the named file resolved against the includer's directory, 'include scope' "
-              "splices the imported scope after ITS includes have been expanded against the current directory "
-              "(include_scope_inlines, include_scope_refdir), a sub-path selects from the expanded scope and an empty selection is "
-              "refused (include_scope_subpath, include_scope_expands_first). The model is tied to /repo by a correspondence run on "
-              "a real scratch directory tree (current directory elsewhere) and a synthetic importable module; the oracle compares "
-              "parse(file, process_includes) with the parse of the textually inlined document and checks the reported cycle chain.")
-LEVEL_NOTE = ("os.path and open() are CPython/OS (no symlinks); the Python import is a parameter (import path -> text; strings, "
-              "scope objects and callables returning scopes all reduce to the text they were parsed from); a failing import and "
-              "imported scopes that include each other cyclically (Python recurses without bound there) are outside the model.")
-TECHNIQUE = "Lean 4 theorems on the include-stack model + differential correspondence on real files + textual-inlining oracle"
+LEVEL_TEXT = "Lean theorems about the include model over an abstract file system and import table: a file already on the include stack is refused with the cycle error naming the chain (cycle_refused, cycle_detected, also through imported scopes), expansion is total / never out of fuel under ranked imports (expand_total, expand_never_out_of_fuel; necessity witness), 'include file' splices the expansion of the named file resolved against the includer's directory (include_inlines), 'include scope' splices the imported scope after its own includes (include_scope_inlines, _subpath, _expands_first, _refdir). Tied to /repo by a correspondence run on a real scratch directory tree (current directory elsewhere; absent targets; look-alike files under the current directory, the root's and the includer's includer's directory) and a synthetic importable module; the oracle compares parse(file, process_includes) with the parse of the textually inlined document over an explicit file table."
+LEVEL_NOTE = 'os.path and open() are CPython/OS (no symlinks); the Python import is a parameter. Parent links / primary ids of included objects are not part of the compared tree (known edge: variables across an include boundary, DESIGN §7).'
+TECHNIQUE = 'Lean 4 theorems on the include-stack model + differential correspondence on real files + textual-inlining oracle'
 RULE = ("all directed include graphs over 3 files with <= 2 includes each (chains, diamonds, self-loops, longer cycles, cycles not "
         "through the root) and random graphs over 4 files, includes at top level or inside scopes, files in different "
         "directories, relative names with '..', current directory different from every file's directory; directory "
